@@ -84,6 +84,33 @@ def rule_edgepred(ctx):
             else:
                 good_w = False
         idiom = sorted(kinds) in (["method:append", "setitem"], ["method:append", "method:setdefault"]) or (init_keys and kinds == ["method:append"])
+        # idiom C: one look-up per hit - `lst = G.get(e); if lst is None: G[e] = [r] else: lst.append(r)`
+        if kinds == ["setitem"] and writes[0].val.op == "list" and len(writes[0].val.a) == 1:
+            w0 = writes[0]
+
+            def is_get(z):
+                # (a bound method `get = G.get` taken before the loop is bound to the dict object itself, which the
+                # summary spells as G's initial value: G is only ever written in place, never re-bound)
+                return z.op == "call" and call_name(z) == ".get" and len(z.a[1]) in (2, 3) and ((z.a[1][0].op in ("loopvar", "loop") and z.a[1][0].a[1] == gname) or z.a[1][0] is init) and (len(z.a[1]) == 2 or tm.is_const(z.a[1][2], None))
+
+            apps = [m for m in s.by_kind("mutate") if m.how == "method:append" and m.old is not None and is_get(m.old)]
+            c0 = [(c, p) for c, p in symeval.pc_conds(w0.pc) if not _no_hits([(c, not p)])]
+            if len(apps) == 1 and len(c0) == 1:
+                c, p = c0[0]
+                g = apps[0].old
+                none_test = c.op == "cmp" and c.a[0] in ("is", "isnot") and any(tm.is_const(z, None) for z in c.a[1:]) and any(z is g for z in c.a[1:])
+                created_when_absent = none_test and ((c.a[0] == "is") == p) and g.a[1][1] is w0.key
+                c1 = [(c_, p_) for c_, p_ in symeval.pc_conds(apps[0].pc) if not _no_hits([(c_, not p_)])]
+                appended_otherwise = len(c1) == 1 and c1[0][0] is c and c1[0][1] == (not p)
+                v_new = w0.val.a[0]
+                v_app = apps[0].val.a[0] if apps[0].val.op == "tuple" and len(apps[0].val.a) == 1 else None
+                if created_when_absent and appended_otherwise and v_app is v_new:
+                    yield ob("C05.EDGEPRED", f, "%s:create-iff-absent" % q, True, "G[e] = [r] runs iff G.get(e) is None (e is not yet a key)", node=w0.node)
+                    yield ob("C05.EDGEPRED", f, "%s:append-unconditional" % q, True, "every hit pair is recorded: as the first entry of a new list or appended to the existing one", node=apps[0].node)
+                    key_t, val_t = w0.key, v_new
+                    idiom = True
+                    good_w = True
+                    writes = []
         if init_keys and kinds == ["method:append"]:
             for m in writes:
                 tgt = m.d.get("old")
@@ -93,12 +120,13 @@ def rule_edgepred(ctx):
         # every hit pair must be recorded: the append runs on every iteration (only the creation of the list is conditional)
         for m in writes:
             if m.how == "setitem":
-                conds = [(c, p) for c, p in symeval.pc_conds(m.pc)]
+                # (what an earlier `if no hits: return []` left behind only says that there are hits)
+                conds = [(c, p) for c, p in symeval.pc_conds(m.pc) if not _no_hits([(c, not p)])]
                 absent = len(conds) == 1 and symeval.holds(conds[0][0], conds[0][1], "notin") and conds[0][0].a[1] is m.key and conds[0][0].a[2].op in ("loopvar", "loop") and conds[0][0].a[2].a[1] == gname
                 yield ob("C05.EDGEPRED", f, "%s:create-iff-absent" % q, absent, "G[e] = [] runs iff e is not yet a key of the graph" if absent else "the adjacency list of e is (re)created under %s, not under `e not in G`: edges already recorded for e can be thrown away" % "; ".join(tm.show(c, 3) for c, _ in conds), node=m.node)
         for m in writes:
             if m.how == "method:append":
-                extra = [x for x in m.pc if x[0] != "loop"]
+                extra = [x for x in m.pc if x[0] != "loop" and not (x[0] == "if" and hasattr(x[1], "op") and _no_hits([(x[1], not x[2])]))]
                 inloop = [x for x in m.pc if x[0] == "loop"]
                 yield ob("C05.EDGEPRED", f, "%s:append-unconditional" % q, not extra and len(inloop) == 1, "G[e].append(r) runs for every hit pair" if not extra else "G[e].append(r) is conditional (%s): hit pairs are dropped from the graph, so the matching is no longer maximum over the tolerance graph" % "; ".join(tm.show(x[1], 3) if hasattr(x[1], "op") else str(x[0]) for x in extra), node=m.node)
         yield ob("C05.EDGEPRED", f, "%s:graph-writes" % q, good_w and idiom, "graph is written only by G[e] = [] / G.setdefault(e, []) and .append(r) (%s)" % kinds)
@@ -153,6 +181,27 @@ def _is_hit_matrix(m):
     return True
 
 
+def _no_hits(conds):
+    """the path is taken only when np.where(<hit matrix>) found nothing: `hits[0].size == 0`, `len(hits[0]) == 0`,
+    `not hits[0].size`"""
+    def where_comp(z):
+        return z.op == "sub" and z.a[1].op == "const" and z.a[0].op == "call" and call_name(z.a[0]) == "np.where" and len(z.a[0].a[1]) == 1
+
+    def count_of_where(z):
+        if z.op == "attr" and z.a[1] == "size" and where_comp(z.a[0]):
+            return True
+        if z.op == "call" and call_name(z) in ("builtins.len", "np.size") and len(z.a[1]) == 1 and where_comp(z.a[1][0]):
+            return True
+        return False
+
+    for c, p in conds:
+        if c.op == "cmp" and c.a[0] == "==" and p and any(tm.is_const(z, 0) for z in c.a[1:]) and any(count_of_where(z) for z in c.a[1:]):
+            return True
+        if count_of_where(c) and not p:
+            return True
+    return False
+
+
 def rule_matchsrc(ctx):
     for q in MATCHERS:
         f = ctx.program.func(q, "C05.MATCHSRC")
@@ -161,6 +210,10 @@ def rule_matchsrc(ctx):
         for i, r in enumerate(s.returns):
             t = r.term
             good = t.op == "call" and call_name(t) == "builtins.sorted" and len(t.a[1]) == 1 and t.a[1][0].op == "call" and call_name(t.a[1][0]) == ".items" and t.a[1][0].a[1][0].op == "call" and call_name(t.a[1][0].a[1][0]) == "util._bipartite_match"
+            if not good and t.op == "list" and not t.a and _no_hits(symeval.pc_conds(r.pc)):
+                # an empty hit list has an empty graph, whose maximum matching is the empty list
+                yield ob("C05.MATCHSRC", f, "%s:return" % q if i == 0 else "%s:return@%d" % (q, i), True, "returns [] exactly when np.where(hit matrix) is empty (the matching of an empty graph)", node=r.node)
+                continue
             yield ob("C05.MATCHSRC", f, "%s:return" % q if i == 0 else "%s:return@%d" % (q, i), good, "returns sorted(util._bipartite_match(G).items())" if good else "a return path yields %s, which does not come from the one-to-one matcher" % tm.show(t, 3), node=r.node)
     # nobody else constructs a pairing
     callers = sorted({f.qual for f in ctx.program.all_funcs() for c in ctx.S.get(f.qual).calls() if c.callee == "util._bipartite_match"})
